@@ -53,7 +53,10 @@ const noName = "\x00no-name"
 // (one endpoint name is the comma-join of two others: names are opaque strings)
 // and one differs from another in letter case only
 var epNames = func() []string {
-	n := []string{"e0:443", "e1:443", "e0:443,e1:443", "E0:443", "e4:443"}
+	// (one name is the comma-join of two others, one differs from another in letter
+	// case only, one is another spelling - with the resolver scheme - of the target
+	// of another: all are distinct endpoints for the library)
+	n := []string{"e0:443", "e1:443", "e0:443,e1:443", "E0:443", "dns:///e1:443"}
 	// 5.. are used by "many endpoints" plans only (index e is taken modulo 5 otherwise)
 	for i := 5; i < 24; i++ {
 		n = append(n, fmt.Sprintf("e%d:443", i))
